@@ -235,6 +235,15 @@ class C02(SimSpec):
             scen["groups"][0]["time_based"] = False
             scen["user"] = {}
         scen["policy"]["finish_w"] = rng.choice([0.1, 0.3, 1.0])  # blockers finish late
+        if i % 6 == 2:
+            # blockers that do not exit but are killed by a signal while the runner survives (out of memory, a user's kill):
+            # "killed by signal n" is their outcome, and it has to be on record before anything that waits for them starts
+            bl = {b for j in scen["jobs"] for b in j["blocked_by"]}
+            for j in scen["jobs"]:
+                if j["name"] in bl and rng.random() < 0.6:
+                    j["rc"] = rng.choice([-9, -15, -6])
+            for g in scen["groups"]:
+                g["try_add"] = True
         if i % 12 == 4:
             # a blocker whose command cannot be started on the node (tool not installed there): it never gets an outcome, so
             # nothing that waits for it may start
@@ -295,6 +304,7 @@ class C02(SimSpec):
         c["dependency_edges_across_batches"] = total(ok, "edges_cross")
         c["dependency_edges_inside_a_batch"] = total(ok, "edges_in")
         c["local_mode_runs"] = sum(1 for t in tasks if t["args"]["scen"].get("mode") == "local")
+        c["jobs_killed_by_a_signal"] = sum(1 for t in tasks for j in t["args"]["scen"]["jobs"] if j["rc"] < 0)
         c["runs_with_resubmission"] = sum(1 for r in ok if (r.get("epochs") or 1) > 1)
         return c
 
